@@ -115,8 +115,17 @@ class Pairs(Harness):
             return False
         lt, eq, exact = oracle(inp['a'], inp['b'])
         gt = z3.And(z3.Not(lt), z3.Not(eq))
-        want = [lt, eq, gt, z3.Or(lt, eq), z3.Or(gt, eq), z3.Not(eq), lt]
-        return mkbool(z3.simplify(z3.Implies(exact, z3.And(*[zbool(r) == w for r, w in zip(rs, want)]))))
+        # one implication per (case of the order, operator): 21 small conjuncts, each checked by its own query --
+        # logically the same as "every result equals the oracle", but the float reasoning (is the serial order the
+        # time order?) is then separated from the boolean bookkeeping
+        R = [zbool(r) for r in rs]
+        cl = []
+        for case, vals in ((lt, (True, False, False, True, False, True, True)),
+                           (eq, (False, True, False, True, True, False, False)),
+                           (gt, (False, False, True, False, True, True, False))):
+            for r, v in zip(R, vals):
+                cl.append(z3.Implies(z3.And(exact, case), r if v else z3.Not(r)))
+        return mkbool(z3.simplify(z3.And(*cl)))
 
 
 @register
